@@ -1,4 +1,26 @@
+HIST_NOTE = ("Trusted: the op interpreter (one JSON op = one public API call), the per-channel slot list "
+             "as the record of the schedule, Pulse.fall_time as a primitive (judged separately by C14).")
 CLAIMED = {
+ "C02": dict(
+  text="Generated call histories (Hypothesis, programs as JSON op lists incl. refused calls) with the M1 timeline invariants evaluated after every step and the sample()/str() views at the end. Exploration: thousands of histories per run, not a proof.",
+  note=HIST_NOTE,
+  technique="property-based testing: generated call histories + per-step invariant oracle (model-based)"),
+ "C03": dict(
+  text="Generated multi-channel histories; every add/add_eom_pulse/add_dmm_detuning/align is compared with an independent start-time model (M2) computed from the pre-call timeline, and estimate_added_delay is called before each add. Exploration.",
+  note=HIST_NOTE + " Where the statement admits two readings (EOM state used for a fall time; zero-valued phase shifts as barriers; which pending fall time counts) both are accepted.",
+  technique="property-based testing: generated histories against a reference scheduler model"),
+ "C07": dict(
+  text="Generated histories against a running-sum phase-reference model (M3) after every step, plus a generated Ramsey experiment on the QuTiP emulator (cos^2(phi/2) within 5e-3). Exploration.",
+  note=HIST_NOTE + " Value of EOM drift corrections is C15's subject (only uniformity is required here). QuTiP solver accuracy.",
+  technique="property-based testing: generated histories against a reference model + analytic metamorphic relation on the emulator"),
+ "C09": dict(
+  text="Generated histories with ~25% invalid calls injected at every position; canonical snapshot before/after every raising call and every read-only call, and build()/switch_register(identical) against the original. Exploration.",
+  note="Trusted: pv/snapshot.py observes all state later calls depend on (slots, EOM blocks, phase trackers, flags, call log).",
+  technique="property-based testing with fault injection: generated histories, snapshot-equality oracle"),
+ "C10": dict(
+  text="Generated histories on channels with every combination of phase-jump time, bandwidth, clock, min duration and retarget times; lower bounds on pulse separation and retarget timing from the statement checked per step. Exploration.",
+  note=HIST_NOTE + " Required separation uses the smaller of the admissible readings of 'fall time' / 'EOM rise time'.",
+  technique="property-based testing: generated histories, per-step timing oracle"),
  "C19": dict(
   text="Generated search (Hypothesis) over coordinate sets, permutations, trap selections, qubit-id lists and weight vectors against an independent sort/lookup oracle, plus exhaustive enumeration of all permutations of fixed 2..6-point sets. Searched, not proved: a violation outside the generated classes can be missed.",
   note="Trusted: numpy.round/sorted as the canonical order; coordinate sets colliding after rounding are excluded by construction.",
